@@ -428,6 +428,26 @@ func runUFCase(raw json.RawMessage, w *TraceWriter) {
 		if out := write(fs); out != nil {
 			conv(out, api)
 		}
+		// a tree built by hand may SHARE sub-trees: the same element slice under two nodes, two prefixes of one slice, the
+		// same tree written twice - it is still a tree of values, written and measured like any other
+		if len(fs) > 0 {
+			row := []uf.UnknownField{{Type: thrift.I16, Value: int16(7)}, {Type: thrift.I16, Value: int16(8)}, {Type: thrift.I16, Value: int16(9)}}
+			fields := []uf.UnknownField{{ID: 1, Type: thrift.I32, Value: int32(5)}, {ID: 2, Type: thrift.STRING, Value: "dflt"}}
+			shared := []uf.UnknownField{
+				{ID: 30000, Type: thrift.LIST, ValType: thrift.LIST, Value: []uf.UnknownField{
+					{Type: thrift.LIST, ValType: thrift.I16, Value: row}, {Type: thrift.LIST, ValType: thrift.I16, Value: row}, {Type: thrift.LIST, ValType: thrift.I16, Value: row[:2]}}},
+				{ID: 30001, Type: thrift.STRUCT, Value: fields},
+				{ID: 30002, Type: thrift.STRUCT, Value: fields},
+				{ID: 30003, Type: thrift.MAP, KeyType: thrift.STRING, ValType: thrift.STRUCT, Value: []uf.UnknownField{
+					{Type: thrift.STRING, Value: "a"}, {Type: thrift.STRUCT, Value: fields}, {Type: thrift.STRING, Value: "b"}, {Type: thrift.STRUCT, Value: fields[:1]}}},
+			}
+			shared = append(shared, fs[0], fs[0]) // the first generated field twice (ids repeat: legal on the wire)
+			for rep := 0; rep < 2; rep++ {
+				if out := write(shared); out != nil && rep == 0 {
+					conv(out, api)
+				}
+			}
+		}
 	case "wide":
 		// many fields in flight: a struct with N scalar fields, then a nested struct with Depth*50 fields (itself holding a
 		// list of structs), then more fields - converted twice in a row (a converter that keeps scratch state between calls)
